@@ -135,4 +135,6 @@ def shards(tier: str):
     for T in (1, 2) if quick else (1, 2, 4):
         for lens, mode in (([1, 1], "sendmsg"), ([2, 0, 1], "sendmsg"), ([2], "send_all"), ([1, 1], "join")):
             out.append({"name": f"budget/{mode}/{'-'.join(map(str, lens))}/T{T}", "scenario": "props.c11:send_budget", "params": dict(lens=lens, T=T, interval=1, mode=mode, max_eagain=2), "budget": B, "cost": 50, "per_path_timeout": 20})
+    # KS engine: loop-head induction for the timeout book-keeping loops (unbounded number of wake-ups / partial writes)
+    out.append({"name": "ks/retry-send_all-sendmsg/loop-head-induction", "ks": "ks.retry:run_all", "scenario": "ks.retry:run_all", "params": {}, "budget": 120, "cost": 1})
     return out
